@@ -580,12 +580,18 @@ class MetadataManager:
             return None
         if not text:
             return None
-        if text.isdigit():
-            # Legacy format: plain version number -> legacy filename
-            return int(text), f"v{text}.metadata.json"
-        m = _METADATA_FILE_RE.match(text)
-        if m:
-            return int(m.group(1)), text
+        try:
+            if text.isdigit():
+                # Legacy format: plain version number -> legacy filename
+                return int(text), f"v{text}.metadata.json"
+            m = _METADATA_FILE_RE.match(text)
+            if m:
+                return int(m.group(1)), text
+        except ValueError:
+            # str.isdigit() and \d accept text int() refuses (superscript
+            # digits such as '²', digit runs beyond the int/str conversion
+            # limit): that is not a version, so the hint is unparseable.
+            return None
         return None
 
     def _read_version_hint(self) -> Optional[Tuple[int, str]]:
